@@ -202,7 +202,13 @@ pub fn gen_arith(rng: &mut Rng) -> Op {
         14 => Op::new(&format!("{}.root", t)).a(a).dst(d).n(1 + rng.below(5) as i64),
         15 => Op::new(&format!("{}.gcd", t)).a(a).b(b).dst(d).form(form(rng)),
         16 => Op::new(&format!("{}.gcdext", t)).a(a).b(b).dst(d).form(form(rng)),
-        17 => Op::new(&format!("{}.sum", t)).dst(d).form(rng.below(6)),
+        17 => {
+            if rng.chance(1, 2) {
+                Op::new(&format!("{}.sum", t)).dst(d).form(rng.below(6))
+            } else {
+                Op::new(&format!("{}.nint", t)).a(a).b(b).dst(d).n(rng.below(10) as i64).m(rng.below(40) as i64).form(rng.below(6))
+            }
+        }
         18 => Op::new(rng.pick(&["i.neg", "i.abs", "i.uabs", "i.not", "i.signum", "u.neg", "u.sqrtrem", "u.cbrt", "i.cbrt"]))
             .a(a)
             .dst(d)
@@ -235,13 +241,7 @@ pub fn gen_cloneop(rng: &mut Rng) -> Op {
         6 => "take",
         7 => "swap",
         8 => "drop",
-        _ => {
-            if t == "u" || t == "i" {
-                "zeroize"
-            } else {
-                "clonefrom"
-            }
-        }
+        _ => "zeroize",
     };
     Op::new(&format!("{}.{}", t, k)).a(a).b(b).dst(d)
 }
@@ -249,11 +249,26 @@ pub fn gen_cloneop(rng: &mut Rng) -> Op {
 pub fn gen_conv(rng: &mut Rng) -> Op {
     let (a, d) = (slot(rng), slot(rng));
     let t = if rng.chance(1, 2) { "u" } else { "i" };
-    match rng.below(9) {
+    match rng.below(10) {
         8 => Op::new(&format!("{}.asf", t)).a(a).form(rng.below(4)),
-        0 | 1 => Op::new(&format!("{}.str", t)).a(a).dst(d).n(rng.below(35) as i64).form(rng.below(3)),
+        9 => {
+            let fam = rng.pick(&["u", "i", "f", "r", "x", "d"]);
+            if fam != "d" && rng.chance(1, 2) {
+                Op::new(&format!("{}.fromf", fam)).dst(d).n(rng.next() as i64).m(rng.below(16) as i64).form(rng.below(3))
+            } else {
+                Op::new(&format!("{}.const", fam)).dst(d).n(rng.next() as i64).m(rng.below(1 << 30) as i64).form(rng.below(5))
+            }
+        }
+        0 => Op::new(&format!("{}.str", t)).a(a).dst(d).n(rng.below(35) as i64).form(rng.below(3)),
+        1 => Op::new(&format!("{}.parse", t)).a(a).dst(d).n(rng.below(8000) as i64).m(rng.below(3000) as i64).form(rng.below(4)),
         2 | 3 => Op::new(&format!("{}.bytes", t)).a(a).dst(d).form(rng.below(2)),
-        4 => Op::new("u.chunks").a(a).dst(d).n(rng.below(200) as i64),
+        4 => {
+            if rng.chance(1, 2) {
+                Op::new("u.chunks").a(a).dst(d).n(rng.below(200) as i64)
+            } else {
+                Op::new("u.ochunks").dst(d).n(rng.below(12) as i64).m(rng.below(8) as i64).form(rng.below(2))
+            }
+        }
         5 => Op::new("u.toi").a(a).dst(d).form(form(rng)),
         6 => Op::new("i.tou").a(a).dst(d).form(form(rng)),
         _ => Op::new("i.parts").a(a).dst(d).form(form(rng)),
@@ -377,7 +392,8 @@ pub fn gen_mixed(rng: &mut Rng) -> Op {
 /// operations generated on purpose to hit documented panics after in-place work (fault kind F5)
 pub fn gen_panic(rng: &mut Rng, sw: &Swarm) -> Op {
     let (a, b, d) = (slot(rng), slot(rng), slot(rng));
-    match rng.below(8) {
+    match rng.below(10) {
+        8 | 9 if !cfg!(miri) => Op::new("u.huge").a(a).dst(d).n(rng.below(4000) as i64).m(rng.below(4) as i64).form(rng.below(7)),
         0 | 1 => {
             // UBig subtraction underflowing only in the top words: build b = a + 2^k first is left to chance;
             // here: subtract a freshly larger literal in place
@@ -405,6 +421,10 @@ pub fn gen_rt(rng: &mut Rng) -> Op {
 }
 
 pub fn gen_op(rng: &mut Rng, sw: &Swarm, faults: bool) -> Op {
+    if sw.big && !cfg!(miri) && rng.chance(1, 30) {
+        // operands far above the pool cap, inside one step (algorithm thresholds counted in words)
+        return Op::new("u.big").a(slot(rng)).b(slot(rng)).c(slot(rng)).dst(slot(rng)).n(rng.below(7) as i64).m(rng.below(1 << 20) as i64).form(rng.below(20));
+    }
     let total = sw.total().max(1);
     let mut r = rng.below(total);
     macro_rules! pick {
